@@ -230,7 +230,7 @@ impl<C: Debug + Clone + Serialize + DeserializeOwned + 'static> Sub for PropSub<
                     continue;
                 }
                 let mut obs = Obs::new();
-                let r = (self.eval)(&case, &mut obs);
+                let r = mb2_model::panics::guard_case(|| (self.eval)(&case, &mut obs)).unwrap_or_else(Err);
                 rep.absorb(obs);
                 if let Err(msg) = r {
                     rep.violations.push(Violation {
@@ -272,7 +272,7 @@ impl<C: Debug + Clone + Serialize + DeserializeOwned + 'static> Sub for PropSub<
         let eval = self.eval;
         let result = runner.run(&strat, |case| {
             let mut obs = Obs::new();
-            let r = eval(&case, &mut obs);
+            let r = mb2_model::panics::guard_case(|| eval(&case, &mut obs)).unwrap_or_else(Err);
             let mut g = cell.borrow_mut();
             // The closure re-runs while proptest shrinks: stop counting at the
             // first failure.
@@ -300,7 +300,7 @@ impl<C: Debug + Clone + Serialize + DeserializeOwned + 'static> Sub for PropSub<
             Err(TestError::Fail(_reason, minimal)) => {
                 // Message of the *shrunk* case.
                 let mut obs = Obs::new();
-                let (msg, case) = match eval(&minimal, &mut obs) {
+                let (msg, case) = match mb2_model::panics::guard_case(|| eval(&minimal, &mut obs)).unwrap_or_else(Err) {
                     Err(m) => (m, serde_json::to_value(&minimal).unwrap()),
                     // The same case passes when it is run again on its own: the
                     // outcome depended on what was run before it. Keep the cases
@@ -328,7 +328,7 @@ impl<C: Debug + Clone + Serialize + DeserializeOwned + 'static> Sub for PropSub<
         }
         let c: C = serde_json::from_value(case.clone()).map_err(|e| format!("replay file does not decode: {e}"))?;
         let mut obs = Obs::new();
-        let r = (self.eval)(&c, &mut obs);
+        let r = mb2_model::panics::guard_case(|| (self.eval)(&c, &mut obs)).unwrap_or_else(Err);
         if let Some(w) = obs.inconclusive {
             return Err(format!("INCONCLUSIVE: {w}"));
         }
